@@ -169,6 +169,34 @@ def _short(x):
     return x if isinstance(x, (str, int, bool, type(None))) else (list(x) if isinstance(x, (list, tuple)) else repr(x))
 
 
+TOP_FIELDS = ['name', 'pid', 'status', 'start_time', 'children', 'threads', 'cpu', 'rss', 'vms']
+
+
+def top_kwargs(lab_spec: dict) -> dict:
+    """Documented display options of run_tasks (only meaningful while the task monitor is shown)."""
+    top = lab_spec.get('top')
+    if not top or not lab_spec.get('displays'):
+        return {}
+    out = {}
+    if top.get('sort'):
+        out['top_sort'] = top['sort']
+    if top.get('n'):
+        out['top_n'] = top['n']
+    if top.get('fields'):
+        out['top_format'] = ' '.join(f'${f}' for f in top['fields'])
+    return out
+
+
+def top_strategy(dense: bool = False):
+    from hypothesis import strategies as st
+    sort = st.builds(lambda neg, f: ('-' if neg else '') + f, st.sampled_from([True, False]), st.sampled_from(TOP_FIELDS[::-1]))
+    full = st.fixed_dictionaries({
+        'sort': sort if dense else st.one_of(st.none(), sort),
+        'n': st.one_of(st.integers(1, 4), st.none(), st.just(10)) if dense else st.one_of(st.none(), st.integers(1, 4), st.just(10)),
+        'fields': st.one_of(st.none(), st.lists(st.sampled_from(TOP_FIELDS), min_size=1, max_size=5, unique=True))})
+    return full if dense else st.one_of(st.none(), full)
+
+
 def make_storage(kind: str, d: str):
     if kind == 'none':
         return None
@@ -286,7 +314,7 @@ def execute_case(spec: dict, *, chooser: Optional[Chooser] = None, gated: bool =
                 try:
                     with (around_run(ctl) if around_run is not None else contextlib.nullcontext()):
                             res = lab.run_tasks(built.requested, bust_cache=lab_spec.get('bust_cache', False),
-                                            disable_progress=not displays, disable_top=not displays)
+                                            disable_progress=not displays, disable_top=not displays, **top_kwargs(lab_spec))
                 except HarnessTimeout as ex:
                     obs.outcome = 'raise'
                     obs.exc = ex
